@@ -9,6 +9,8 @@ property theorems.  The ulp bound of "up to summation-order rounding" is standar
 analysis and is measured by the oracle, not mechanised.
 -/
 import RubatoProofs.Kernels.Dot
+import RubatoProofs.Lemmas.DivBridge
+import RubatoModel.SincTable
 
 namespace Rubato.C15
 open Rubato.Kern Rubato.KernProofs Finset
@@ -91,5 +93,39 @@ theorem trailing_taps_dropped (wave : List α) (index : ℕ) (sinc : List α) (l
 /-! ### non-vacuity: a 16-tap example over ℤ with garbage outside the window -/
 example : avxF64 w16 1 (pack 4 s16) 16 = scalar w16 1 s16 ∧ sseF64 w16 1 (pack 2 s16) 16 = scalar w16 1 s16 := by
   decide
+
+end Rubato.C15
+
+namespace Rubato.C15
+open Rubato Rubato.Gen
+
+/-! ### the dispatch (`make_interpolator`, regenerated by the translator, tie G7)
+
+The translator checks on the source text that every kernel constructor of the dispatch (AVX, SSE, NEON, scalar) is called
+with the same `(sinc_len, oversampling_factor, f_cutoff, window)` and that none of them is rebound in between (it fails the
+run otherwise); the two statements that compute those arguments are regenerated, the model uses them verbatim, and: -/
+
+/-- [exact] the length every kernel is built with is the requested length rounded up to a multiple of 8 — the
+hypothesis `8 ∣ length` of the kernel theorems above always holds for tables built by the dispatch -/
+theorem dispatch_table_length (n : ℕ) :
+    interpLen (ρ := ℚ) n = 8 * ((n + 7) / 8) ∧ 8 ∣ interpLen (ρ := ℚ) n ∧ n ≤ interpLen (ρ := ℚ) n := by
+  have h : interpLen (ρ := ℚ) n = 8 * ((n + 7) / 8) := by
+    unfold interpLen Formulas.mkInterp_sinc_len
+    simp only [Bridge.div32_eq, Bridge.ofNat32_eq, Bridge.n32_eq, Bridge.lit_eq, Bridge.ceil_eq]
+    have h8 : ((8 : ℕ) : ℚ) / ((1 : ℕ) : ℚ) = ((8 : ℕ) : ℚ) := by norm_num
+    rw [h8, DivBridge.ceil_natdiv]
+    have hnn : (0 : ℤ) ≤ (((n + 8 - 1) / 8 : ℕ) : ℤ) := Int.natCast_nonneg _
+    rw [Bridge.toNat_intCast_of_nonneg hnn, Int.toNat_natCast]
+    rfl
+  refine ⟨h, ?_, ?_⟩
+  · rw [h]; exact Dvd.intro _ rfl
+  · rw [h]; omega
+
+/-- [exact] and the cutoff every kernel is built with is `f_cutoff·min(1, ratio)` -/
+theorem dispatch_cutoff (fcut ratio : ℚ) :
+    interpCutoff fcut ratio = if 1 ≤ ratio then fcut else fcut * ratio := by
+  unfold interpCutoff Formulas.mkInterp_f_cutoff
+  simp only [Bridge.ge_eq, Bridge.lit_eq, decide_eq_true_eq, Bridge.mul32_eq, Bridge.n32_eq]
+  norm_num
 
 end Rubato.C15
